@@ -371,17 +371,22 @@ theorem print_stable_of_modulo (h : PrintParseModuloMembersStatement) :
   exact ⟨toks', _, a, b, print_ignores_member_descriptions c d⟩
 
 /-- `print_parse_partial` — what is PROVED of `PrintParseModuloMembersStatement` / `PrintParseStatement`, for every
-    indentation configuration and every flag combination with `no_location`:
+    indentation configuration over {space, tab} and every flag combination with `no_location`:
       (1) TYPES in full (`print_parse_type`);
-      (2) VALUES: all 9 kinds, nested lists / objects, variables, quoted strings with arbitrary content; floats and
-          block strings under the string-level hypotheses `FloatLexeme` / `BlockLexeme` (block strings at nesting
-          depth 0: the value position of `parse_value`) (`print_parse_value`).
-    Token level one layer up: ARGUMENTS and DIRECTIVES (`print_tokens_directives`).
-    MISSING: variable definitions (same lemmas, one more layer), selections and selection sets
-    (need `_indent` = `replaceLF` commuting with lexing: an LF-prefix of ignored characters inside block strings is the
-    lemma `indent_common_shift` of the string part), operations / fragments / type-system definitions and the document
-    loop (need the document-level `parse_complete` of C01, itself open).  All of these are covered by the
-    correspondence (exact strings, model = code) and the direct oracle of corr/C03_print.py. -/
+      (2) VALUES in full: all 9 kinds, nested lists / objects, variables, quoted strings with arbitrary content, integers
+          and floats by the specification recognisers (`print_parse_value`, `print_parse_value_spec`,
+          `float_lexeme_spec`); block strings through `BlockLay`, discharged for the multi-line form at every depth
+          (`block_lay_multiline`);
+      (3) EXECUTABLE DOCUMENTS in full (`print_parse_executable`, stated separately because it needs `IndentOK`):
+          operations (long form and shorthand), variable definitions, fields, aliases, arguments, directives, fragment
+          spreads, inline fragments, selection sets nested to any depth through `_block`/`_indent`, fragment
+          definitions (with fragment variables), the document loop.
+    MISSING: type-system definitions and extensions (the same `Lay` lemmas apply to `_with_desc`, `_block` of field /
+    enum-value / input-value definitions and the multi-line argument definitions; the matcher side needs the optional
+    separators `&?`, `|?` and the `[lookahead ≠ {]` items of the views, and the statement is modulo member descriptions,
+    finding R4), mixed documents where the R6 guard inserts `query`, the one-line block-string form and the empty block
+    string.  All of these are covered by the correspondence (exact strings, model = code) and the direct oracle of
+    corr/C03_print.py. -/
 theorem print_parse_partial (fl : Flags) (hnl : fl.noLocation = true) (c : Cfg) :
     (∀ t, lexOkType t = true → noLocType t = true → wfType t = true →
       ∃ toks, lexAll (printType t) = .ok toks ∧ parseType fl toks = .ok t) ∧
